@@ -498,9 +498,13 @@ class Symex:
         elif isinstance(s, ast.While):
             n = 0
             broke = False
-            while self.truth(self.ev(s.test), s.test):
+            while True:
+                c = self.ev(s.test)
+                if not self.truth(c, s.test):
+                    break
                 n += 1
-                if n > 64:
+                # a concrete, non-constant condition (a scan over a concrete string/list) gets the bound of for-loops
+                if n > (64 if isinstance(c, T) or isinstance(s.test, ast.Constant) or self.cut_loops else 4096):
                     if self.cut_loops:
                         raise _Cut()
                     self.unsupported(s, "while bound exceeded")
@@ -792,6 +796,11 @@ class Symex:
             a = _SYMPY_NUM[a.name]
         if isinstance(b, Ext) and b.name in _SYMPY_NUM:
             b = _SYMPY_NUM[b.name]
+        # a name without source (S.One, sympy.pi, ...) is an uninterpreted symbol in arithmetic, as in comparisons
+        if isinstance(a, Ext):
+            a = sym(a.name)
+        if isinstance(b, Ext):
+            b = sym(b.name)
         sa, sb = isinstance(a, T), isinstance(b, T)
         if isinstance(a, Obj):
             a, sa = a.term, True
